@@ -7,6 +7,8 @@ func propC03(c *Ctx) propInfo {
 	c.floor("E3a.hygiene", 230)
 	c.floor("E3a.codec-pair", 20)
 	c.intFamily(true, false, true)
+	c.codecPairs("E5.codec-pair", skipPairs, "tlb", "wallet")
+	c.floor("E5.codec-pair", 20)
 	c.lossyConversions(excC03Lossy, "tlb", "wallet", "ton", "tl")
 	c.floor("E2.R-lossyconv", 4)
 	return propInfo{
@@ -19,4 +21,18 @@ var excC03Lossy = map[string]string{
 	"tl.Marshal int64->int32 of reflect.Value.Int()":    "inside case reflect.Int32: Value.Int() of an int32 fits",
 	"tl.EncodeLength int->uint32 of (i<<8)":             "TL byte strings are limited to 2^24-1 bytes by the 3-byte length; callers pass len() of in-memory data",
 	"tl.encodeVector int->uint32 of reflect.Value.Len()": "element count of an in-memory slice; a slice with 2^32 elements cannot be encoded anyway",
+}
+
+var skipPairs = map[string]string{
+	"tlb.BinTree":              "recursive helper on both sides with different decomposition (writer not implemented for forks)",
+	"tlb.Bytes":                "delegates to SnakeData after a value-dependent length split",
+	"tlb.SnakeData":            "capacity-driven split into a chain of cells: the layout depends on the value's length",
+	"tlb.ChunkedData":          "dictionary of chunks: writer and reader use different intermediate types",
+	"tlb.Hashmap":              "recursive tree codec (encodeMap / mapInner): covered by the C05 label and recursion-shape rules, not by path comparison",
+	"tlb.HashmapAug":           "recursive tree codec: see C05",
+	"tlb.VmStkTuple":           "recursive tuple helpers with different decomposition on the two sides",
+	"wallet.PayloadHighload":   "writer builds the dictionary by hand, reader through HashmapE: covered by the C14 dictionary-width rule",
+	"wallet.PayloadV1toV4":     "loop over (mode, ^message) pairs: bits and references are independent streams, the two sides interleave them differently",
+	"wallet.W5Actions":         "linked list of actions written by hand and read through W5SendMessageAction: covered by the C14 action-layout rule",
+	"wallet.W5ExtendedActions": "linked list with value-dependent termination",
 }
